@@ -136,8 +136,18 @@ func (multiSource *MultiSource) ReadEntities(ctx context.Context, since DatasetC
 	}
 
 	if !multiSource.isFullSync {
-		for _, dep := range multiSource.Dependencies {
-			err := multiSource.processDependency(ctx, dep, d, batchSize, processEntities)
+		for i, dep := range multiSource.Dependencies {
+			// several dependencies can watch the same dataset (different join paths). They all work on the same
+			// page of changes, so the dataset's token may only advance when the last of them is through:
+			// a token that is stored earlier makes a run that is interrupted in between skip the others' work
+			lastOfDataset := true
+			for _, later := range multiSource.Dependencies[i+1:] {
+				if later.Dataset == dep.Dataset {
+					lastOfDataset = false
+					break
+				}
+			}
+			err := multiSource.processDependency(ctx, dep, d, batchSize, lastOfDataset, processEntities)
 			if err != nil {
 				return err
 			}
@@ -162,7 +172,7 @@ func (multiSource *MultiSource) resetChangesCache() {
 	multiSource.changesCache = make(map[string]changeURIData)
 }
 
-func (multiSource *MultiSource) processDependency(ctx context.Context, dep Dependency, d *MultiDatasetContinuation, batchSize int, processEntities func([]*server.Entity, DatasetContinuation) error) error {
+func (multiSource *MultiSource) processDependency(ctx context.Context, dep Dependency, d *MultiDatasetContinuation, batchSize int, advanceToken bool, processEntities func([]*server.Entity, DatasetContinuation) error) error {
 	depDataset, err2 := multiSource.getDatasetFor(dep)
 	targetDs := multiSource.Store.DatasetsToInternalIDs([]string{multiSource.DatasetName})
 	if err2 != nil {
@@ -371,7 +381,9 @@ func (multiSource *MultiSource) processDependency(ctx context.Context, dep Depen
 		}
 	}
 
-	d.DependencyTokens[dep.Dataset] = &StringDatasetContinuation{Token: strconv.Itoa(int(continuation))}
+	if advanceToken {
+		d.DependencyTokens[dep.Dataset] = &StringDatasetContinuation{Token: strconv.Itoa(int(continuation))}
+	}
 	// if there are still unemitted search results, emit them now
 	if len(entities) > 0 {
 		err = processEntities(entities, d)
